@@ -666,6 +666,15 @@ def c01(ctx):
                 # both callbacks installed earlier, then mode m1 confirmed, then rfc := m2 without setup
                 scripts.append("i;t0;r%d;s;r%d;s;r%d;" % (m2, m1, m2) + ";".join("e" + hx(p) for p in probes) + ";f")
     check_histories(ctx, "rfc-without-setup", scripts)
+    # eav_free releases the result, the eav_t and its settings stay the caller's: a new eav_setup on it (no eav_init in between) confirms the
+    # mode chosen then.  Only the libidn2 source set is asked: idnkit's eav_free leaves a destroyed context behind, re-use without eav_init
+    # is outside its documented life cycle.
+    scripts = []
+    for m1 in MODES:
+        for m2 in MODES:
+            scripts.append("i;t0;r%d;s;e%s;f;r%d;s;" % (m1, hx(probes[0]), m2) + ";".join("e" + hx(p) for p in probes) + ";f")
+            scripts.append("i;t0;r%d;s;f;r%d;s;" % (m1, m2) + ";".join("e" + hx(p) for p in probes) + ";f;f")
+    check_histories(ctx, "setup-after-free", scripts)
 RULES["C01"] = "distinct (mode, tld_check, address) triples that pass basic_email_check (not empty, has '@', non-empty halves, local part <= 64); exhaustive over a 12-class alphabet to length 4 (5 thorough), 18 local parts x 29 domains, local length 60-69 x 0-3 '@', random"
 
 
